@@ -28,12 +28,17 @@ DECIDED = [
     "R-C13-VALIDATE (config): Connection._update_from_config gives each broker the Config class of its own role (results broker <- RESULT_BUCKET)",
     "R-C13-FIELDS (uncached): Job.result asks the results broker on every read; R-C13-LAZY (writers): the lazy slot is written only by set_result / set_exception; R-C13-ORDER (race): no second terminal action after a failed result store",
     "R-C13-FIELDS (round 5): the in-memory bucket storage is created per broker object in __init__ (a class-body dict is shared by args and result brokers); every job without an explicit result id gets its own (no eager default)",
+    "R-C13-OFF / R-C13-ORDER / R-C13-FIELDS (round 6): bucket ownership table (producer: store args, read results; worker: read args, store results; nobody deletes); one store attempt per execution, no waiting; the Redis bucket broker reads the server on every get",
+    "R-C13-AWAITED: in the files this property is anchored in, no bare statement calls a coroutine function (the operation would never run)",
 ]
 NOT_DECIDED = ["bucket content across retry chains as a value (follows from same-id overwrite)", "bucket TTL expiry timing"]
 ASSUMPTIONS = ["store_bucket under an existing id overwrites (both bucket brokers: dict assignment / Redis SET)"]
 
 
 def run(ctx: Ctx) -> None:
+    from .shared import every_operation_awaited
+
+    every_operation_awaited(ctx, "R-C13-AWAITED")  # in the files this property is anchored in, no asynchronous operation is created and dropped
     bucket_brokers(ctx)
     from .C02 import catch
 
@@ -52,6 +57,10 @@ def run(ctx: Ctx) -> None:
     lazy_slot_writers(ctx, "R-C13-LAZY")
     validate(ctx)
     config_buckets(ctx)
+    from .shared import bucket_ownership
+
+    bucket_ownership(ctx, "R-C13-OFF")
+    single_store_attempt(ctx)
     from .shared import fresh_defaults
 
     with ctx.as_rule("R-C13-FIELDS"):
@@ -374,6 +383,34 @@ def redis_bucket_expiry(ctx: Ctx, rule: str) -> None:
               node=sc[0], instance="redis expiry")
 
 
+def single_store_attempt(ctx: Ctx, rule="R-C13-ORDER") -> None:
+    """An execution writes its outcome at most once, right away: a store repeated later (retry loop with a back-off) can land after the NEXT execution of the same message stored its
+    outcome, and the bucket then holds the older one."""
+    f = ctx.func(f"{C.PROCESSOR}.set_result_bucket")
+    g = ctx.icfg(f)
+    stores = [n for n in g.calls() if C.bucket_op(ctx, n, ("store_bucket",))]
+    ctx.require(bool(stores), f"{f.qualname}: store_bucket call not found")
+    looped = [s for s in stores if s.id in flow.reach(g, [s.id], flow.ALL_KINDS)]
+    sleeps = [n for n in g.calls() if (n.callee or "").endswith("sleep")]
+    ctx.check(not looped and not sleeps, rule, f, "one store attempt per execution, no waiting", "store_bucket is not on a cycle; no sleep in set_result_bucket",
+              f"set_result_bucket {'repeats store_bucket in a loop' if looped else 'sleeps'}: a store that succeeds late can overwrite the outcome the next execution of the same message has stored in the "
+              "meantime - the bucket then holds an older execution's outcome", node=(looped or sleeps)[0] if (looped or sleeps) else None, instance="result stored once")
+
+
+def redis_get_reads_server(ctx: Ctx, rule: str) -> None:
+    """Every bucket a Redis get_bucket() returns was read from the server by this very call: another connection (the producer, another worker) may have rewritten or deleted the
+    key since - a bucket remembered in the broker object is somebody's older arguments / an older outcome."""
+    gb = ctx.func("repid.connections.redis.bucket_broker.RedisBucketBroker.get_bucket")
+    g = ctx.icfg(gb)
+    reads = [n.id for n in g.calls() if (n.callee or "") == "self.conn.get"]
+    ctx.require(bool(reads), f"{gb.qualname}: GET not found")
+    rets = [n for n in g.nodes if n.kind == "return" and n.func is gb and isinstance(n.ast, ast.Return) and n.ast.value is not None and not C.is_const(n.ast.value, None)]
+    bad = [r for r in rets if not flow.must_pass(g, g.entry.id, [r.id], reads, flow.NORMAL_KINDS)]
+    ctx.check(bool(rets) and not bad, rule, gb, "redis get_bucket: every returned bucket was just read from the server", "GET on every path to a non-None return",
+              f"redis get_bucket can return `{unparse(bad[0].ast.value)[:60] if bad else '?'}` without asking the server: a bucket rewritten or deleted through another connection since it was "
+              "remembered is served stale (the worker runs a job with an earlier job's arguments / Job.result shows an older outcome)", node=bad[0] if bad else None, instance="redis get reads the server")
+
+
 def bucket_brokers(ctx: Ctx, rule="R-C13-FIELDS") -> None:
     """store under the id / read the same id back, in both bucket brokers; Redis expiry from timestamp + ttl."""
     im = "repid.connections.in_memory.bucket_broker.InMemoryBucketBroker"
@@ -419,3 +456,4 @@ def bucket_brokers(ctx: Ctx, rule="R-C13-FIELDS") -> None:
     dc = [c for c in ast.walk(gb.node) if isinstance(c, ast.Call) and dotted(c.func) == "self.BUCKET_CLASS.decode"]
     ok = len(gc) == 1 and dotted(gc[0].args[0]) == "id_" and len(dc) == 1 and C.utext(gb, dc[0].args[0]).endswith(".decode()")
     ctx.check(ok, rule, gb, "redis get_bucket: GET id_ -> BUCKET_CLASS.decode", "reads and decodes the bucket of that id", "redis get_bucket does not read id_ and decode it with the broker's bucket class", instance="redis get")
+    redis_get_reads_server(ctx, rule)
